@@ -39,6 +39,7 @@ def pool():
         mk(10, Y, unified=True, additional_variants=["Client", "Server"]),   # differs from U only in additional_variants
         mk(11, Y, unified=True, additional_variants=["Client"]),       # collides with U
         mk(12, X, unified=True, additional_variants=["Server", "Client"]),   # caller-ordered list: not the identity of #10
+        mk(13, dict(X, md5="c" * 32)),                                 # identity of A, checksums a strict SUPERSET of A's
     ]
 
 
@@ -308,8 +309,8 @@ KNOWN = {}
 
 def describe(tier):
     return {
-        "rule": "operations: add(cell, image) for 4 cells (2 variants x 2 arches) x 13 pool images (A; same identity+same "
-                "checksums; same identity+different checksums; 7 images differing from A in exactly one identity attribute; "
+        "rule": "operations: add(cell, image) for 4 cells (2 variants x 2 arches) x 14 pool images (A; same identity+same "
+                "checksums; same identity+different checksums; same identity+superset of A's checksum types; 7 images differing from A in exactly one identity attribute; "
                 "unified images with equal / different / differently ordered additional_variants), dumps(), reload (write+read into a fresh object); "
                 "initial header in {default 0.0, 1.0, 1.1, 1.2, 2.0}.  All histories up to the depth, deduplicated on the model "
                 "state; lockstep model: refuse iff version >= 1.1 and an equal-identity image with different checksums is filed "
